@@ -85,8 +85,26 @@ class OD(collections.OrderedDict):
     pass
 
 
+Point = collections.namedtuple("Point", "x y")
+Token = collections.namedtuple("Token", "text")
+
+
+class Pair(tuple):
+    pass
+
+
 def hostile(rng):
-    k = rng.randrange(16)
+    k = rng.randrange(19)
+    if k == 16:
+        return rng.choice([Point(1, 2), Token("secret"), Pair((1, 2)), Point("a", [1])])
+    if k == 17:
+        import time
+        return rng.choice([time.gmtime(0), Token(Point(1, 2))])
+    if k == 18:
+        p = Plain()
+        p.__dict__["_Plain__caf" + "\udce9"] = 1          # a name-mangled attribute whose name is not valid unicode
+        p.__dict__["ok\ud800"] = "v"
+        return p
     if k == 0:
         return b"bytes\xff"
     if k == 1:
@@ -135,6 +153,8 @@ def scalar(rng):
         return rng.choice([True, False])
     if k == 4:
         return None
+    if rng.random() < 0.15:
+        return rng.choice([Point(1, 2), Token("t"), Pair((3, 4))])
     return rng.choice(["k%d" % rng.randrange(50), rng.randrange(300, 400)])
 
 
